@@ -72,6 +72,9 @@ pub fn run_one(seed: u64, profile: Profile, thorough: bool, mk: MkMonitors, stop
     for m in monitors.iter_mut() {
         m.on_genesis(&ledger, &mut res.cov);
     }
+    for n in crate::world::GENESIS_NOTES.with(|g| std::mem::take(&mut *g.borrow_mut())) {
+        res.cov.note(&n);
+    }
     let mut idx = 0usize;
     while let Some(ev) = g.next_event(&ledger) {
         let (out, v) = apply_event(&mut ledger, idx, &ev, &mut monitors, &mut res.cov);
